@@ -128,6 +128,20 @@ def run_one(sc):
         holder[0] = Monitor(env, s, dist, service_included=bool(mon["incl"]))
 
     notify[0] = netlib.injector(env, rec, sc["arr"], make_packet, s, on_arrival)
+    if sc.get("twin"):
+        # a second scheduler of the same kind and configuration lives in the same process and environment and carries
+        # its own traffic: nothing it does may show in the first one's trace
+        try:
+            s2 = build(env, sc)
+
+            class Null:
+                def put(self, pkt):
+                    pass
+            s2.out = Null()
+            netlib.injector(env, None, sc["twin"], lambda i, a: Packet(env.now, a["sz"], 1000 + i, flow_id=a["f"] - 1), s2,
+                            lambda i, a, pkt: None)
+        except BaseException as e:  # noqa
+            rec.ev.append(dict(base, e="X", t=ex(env.now), type=type(e).__name__))
     ok = netlib.run_env(env, rec)
     for e in rec.ev:
         if e["e"] == "X":
